@@ -192,6 +192,9 @@ def base_plan(tier, seed, classes=('pess', 'opt', 'mcs'), opt_scripts=True, thre
         if three:
             plan.append((cls, programs.cross3(cls, CONV + ('X',), MODES3, MODES3),
                          dict(pb=1 if q else 2, max_exec=600 if q else 20000)))
+            plan.append((cls, programs.cross3(cls, ('X',), MODES3, MODES3, tag='x3x'),
+                         dict(pb=2, max_exec=4000 if q else 30000)))
+            plan.append((cls, programs.four(cls, full=not q), dict(pb=1 if q else 2, max_exec=500 if q else 8000)))
             if cls == 'opt' and opt_scripts:
                 plan.append((cls, programs.cross3(cls, ('GTX', 'GTI', 'PRV', 'GVV'), ('X', 'DNG', 'XSV'), ('S', 'SIX', 'X')),
                              dict(pb=1 if q else 2, max_exec=600 if q else 20000)))
@@ -487,4 +490,166 @@ def check_c12(prop, tier, seed):
                            'recycling through the per-thread cache is observable only when the cached node is freed (cache '
                            'replacement or thread exit); a node reused from the cache while another thread still holds a reference '
                            'is left to the compatibility/progress checks']
+    return res
+
+
+# ------------------------------------------------------------------------------------------------
+# IDManager / EpochManager: programs run by the thread harness (one build per ID capacity)
+# ------------------------------------------------------------------------------------------------
+def thread_check(prop, tier, seed, plan, proj, spec_name, cfg_path, describe, statuses=('ok', 'stuck'), max_rounds=3,
+                 crash_statuses=('crash', 'timeout', 'aborted')):
+    """plan: list of (capacity N, [program lines], dict(pb=, max_exec=, mode=))"""
+    workdir = os.path.join(OUT, 'work', prop)
+    os.makedirs(workdir, exist_ok=True)
+    prog_text = {}
+    builds = {}
+    for n, progs, par in plan:
+        if n not in builds:
+            builds[n] = vlib.build(n)
+        for p in progs:
+            prog_text[p.split()[1]] = (n, p)
+    from concurrent.futures import ThreadPoolExecutor
+
+    def run_item(item):
+        k, (n, progs, par) = item
+        files = vlib.run_harness(builds[n], 'threadh', [], progs, workdir, mode=par.get('mode', 'dfs'), pb=par.get('pb', 2),
+                                 max_exec=par.get('max_exec', 4000), seed=seed, tag='t%d_%d' % (n, k))
+        out = []
+        for f in files:
+            out.extend(vlib.iter_execs(f))
+        return out
+    allex = []
+    with ThreadPoolExecutor(max_workers=6) as pool:
+        for ex in pool.map(run_item, list(enumerate(plan))):
+            allex.extend(ex)
+    execs = [e for e in allex if e.status in statuses or e.status in crash_statuses]
+    groups = vlib.dedup_histories(execs, lambda ex: proj(ex, prog_text[ex.prog][1]))
+    groups = [g for g in groups if g[0]]
+    hists = [g[0] for g in groups]
+    reps = [g[1] for g in groups]
+    spec = os.path.join(SPEC, spec_name)
+    rej, st = vlib.validate_until_clean(spec, cfg_path, hists, workdir, prop.lower(), max_rounds=max_rounds)
+    violations = []
+    for r in rej[:10]:
+        ex = reps[r['hist']]
+        h = hists[r['hist']]
+        n, ptext = prog_text[ex.prog]
+        bad = h[r['line']] if r['line'] < len(h) else {'e': 'end-of-stream'}
+        desc, sig = describe(ex, h, r['line'], bad)
+        violations.append({'desc': '%s: program %s (capacity %d, schedule %s): %s' % (prop, ex.prog, n, ex.sched, desc),
+                           'signature': ['cap:%d' % n] + sig,
+                           'replay': {'kind': 'thread', 'program': ptext, 'schedule': ex.sched, 'n': n, 'spec': spec_name}})
+    cov = {
+        'states': max(1, st['distinct']), 'transitions': max(1, st['states']),
+        'traces_validated_against_impl': len(execs), 'distinct_histories': len(hists),
+        'events_validated': st['events'], 'programs': len(prog_text), 'exec_status': status_counts(allex),
+        'capacities': sorted(builds),
+        'samples': [{'program': reps[i].prog, 'schedule': reps[i].sched,
+                     'history_head': [{k: v for k, v in e.items() if v not in (-1, '-')} for e in hists[i][:16]]}
+                    for i in range(0, len(hists), max(1, len(hists) // 2))][:2],
+        'rejected_histories': len(rej), 'unexamined_histories': st.get('unexamined', 0),
+    }
+    return {'level': 'model_checking', 'violations': violations, 'coverage': cov, 'assumptions': []}
+
+
+ID_FIELDS = ('t', 'id', 'stale', 'k', 'x', 'owner', 'cap')
+
+
+def id_history(ex, ptext=None):
+    out = []
+    for e in ex.events:
+        k = e.get('e')
+        if k in ('cfg', 'idcall', 'id', 'hbget', 'exp', 'tend', 'texit', 'bar', 'stuck'):
+            o = {'e': k}
+            for f in ID_FIELDS:
+                o[f] = e.get(f, -1)
+            out.append(o)
+    if ex.status in ('crash', 'timeout', 'aborted'):
+        o = {'e': 'stuck'}
+        for f in ID_FIELDS:
+            o[f] = -1
+        out.append(o)
+    return out
+
+
+def id_programs(n, tier):
+    """ID claims, repeated calls, heartbeats, thread exits and re-claims; hash = probe start chosen by the harness"""
+    out = []
+    q = tier == 'quick'
+    final = ' || ' + ' | '.join('ID BAR:1:%d' % n for _ in range(n))     # all N IDs must be obtainable again
+    def thr(k, others):
+        return 'ID HB:%d ID %s' % (k, ' '.join('EXP:%d' % o for o in others))
+    # N+1 threads, full collision (all hashes equal), every thread looks at the heartbeats of the others
+    for m in (n + 1, n + 2):
+        if q and m > n + 1 and n > 1:
+            continue
+        if m > 5:
+            continue
+        ths = [thr(k, [o for o in range(1, m + 1) if o != k]) for k in range(1, m + 1)]
+        out.append('P id%d_collide_%d cap=%d hash=%s | %s%s' % (n, m, n, ','.join(['0'] * m), ' | '.join(ths), final))
+    # distinct probe starts including wrap-around
+    m = min(n + 1, 4)
+    ths = [thr(k, [o for o in range(1, m + 1) if o != k]) for k in range(1, m + 1)]
+    out.append('P id%d_spread cap=%d hash=%s | %s%s' % (n, n, ','.join(str((n - 1 + k) % n) for k in range(m)), ' | '.join(ths), final))
+    # generations: threads exit, later threads re-claim and check every earlier heartbeat
+    g1 = ' | '.join('ID HB:%d' % k for k in range(1, n + 1))
+    g2 = ' | '.join('ID HB:%d %s' % (n + k, ' '.join('EXP:%d' % o for o in range(1, n + 1))) for k in range(1, n + 1))
+    out.append('P id%d_generations cap=%d hash=%s | %s || %s%s' % (n, n, ','.join(['0'] * (2 * n)), g1, g2, final))
+    return out
+
+
+def id_plan(tier):
+    q = tier == 'quick'
+    plan = []
+    for n in ((1, 2) if q else (1, 2, 3)):
+        plan.append((n, id_programs(n, tier), dict(pb=2 if q else 3, max_exec=6000 if q else 60000)))
+    return plan
+
+
+def id_cfg(switches, prop):
+    workdir = os.path.join(OUT, 'work', prop)
+    os.makedirs(workdir, exist_ok=True)
+    sub = {k: ('TRUE' if k in switches else 'FALSE') for k in ('CkUnique', 'CkCapacity', 'CkHeartbeat')}
+    return vlib.write_cfg(os.path.join(SPEC, 'cfg', 'IdAbsTrace.tpl.cfg'), sub, os.path.join(workdir, 'id.cfg'))
+
+
+def id_describe(ex, h, line, bad):
+    k = bad.get('e')
+    if k == 'id':
+        d = 'GetThreadID returned %s to thread %s (stale heartbeats of earlier owners: %s)' % (bad.get('id'), bad.get('t'), bad.get('stale'))
+    elif k == 'exp':
+        d = 'heartbeat of thread %s reports expired=%s' % (bad.get('owner'), bad.get('x'))
+    elif k == 'stuck':
+        d = 'the run stopped: a GetThreadID call never returns although an ID is free (status %s)' % ex.status
+    else:
+        d = 'unexplained event %s' % {a: b for a, b in bad.items() if b != -1}
+    return d, ['ev:' + str(k), 'status:' + ex.status]
+
+
+ID_ASSUME = ['IDs are observed through GetThreadID return values only; the probe start (thread hash) is chosen by the harness through '
+             'the guarded ThreadHash hook',
+             'thread exit runs under the scheduler with a scheduling point between heartbeat expiry and ID release (guarded hook)',
+             'capacities 1-3, up to capacity+2 threads; preemption-bounded DFS']
+
+
+@register('C05')
+def check_c05(prop, tier, seed):
+    res = thread_check(prop, tier, seed, id_plan(tier), id_history, 'IdAbsTrace.tla', id_cfg(['CkUnique'], prop), id_describe)
+    res['assumptions'] = ID_ASSUME
+    return res
+
+
+@register('C14')
+def check_c14(prop, tier, seed):
+    res = thread_check(prop, tier, seed, id_plan(tier), id_history, 'IdAbsTrace.tla', id_cfg(['CkCapacity'], prop), id_describe)
+    res['assumptions'] = ID_ASSUME + ['every program ends with a generation of capacity-many threads that must all hold an ID at the '
+                                      'same time (barrier): a lost ID shows up as a GetThreadID call that never returns']
+    return res
+
+
+@register('C15')
+def check_c15(prop, tier, seed):
+    res = thread_check(prop, tier, seed, id_plan(tier), id_history, 'IdAbsTrace.tla', id_cfg(['CkHeartbeat'], prop), id_describe)
+    res['assumptions'] = ID_ASSUME + ['the harness keeps a copy of every heartbeat handed out and evaluates expired() of all earlier '
+                                      "owners' heartbeats at the moment GetThreadID returns an ID"]
     return res
